@@ -314,7 +314,7 @@ groups:;
 		snprintf(input, sizeof input, "%s.%s", htxt, ptxt);
 		HMAC(EVP_sha256(), key, 32, (const unsigned char *)input, strlen(input), mac, &ml);
 		ref_b64_encode(mac, ml, mtxt);
-		static const int lens[] = { 0, 1, 2, 3, 4, 43, 255, 256, 257, 511, 512, 513, 768, 1024 };
+		static const int lens[] = { 0, 1, 2, 3, 4, 43, 255, 256, 257, 511, 512, 513, 768, 1024, 65535, 65536, 65537 };
 		static const unsigned char fills[] = { 'A', '-', '!', '=', ' ', 0x7f, 0x80, 0xc1, 0xff };
 		for (unsigned f = 0; f < sizeof fills; f++) {
 			if (!vf_case("public API: HS256 token whose signature text is followed by 0..1024 bytes %#04x", fills[f]))
